@@ -97,7 +97,7 @@ def mutants(a):
     for meta in sorted(glob.glob(os.path.join(ROOT, "seeded", "*", "meta.json"))):
         with open(meta) as fh:
             m = json.load(fh)
-        cat[os.path.join(os.path.dirname(meta), "patch.diff")] = {"properties": m.get("detected_by") or [m["property"]], "what": m.get("what", "")}
+        cat[os.path.join(os.path.dirname(meta), "patch.diff")] = {"properties": m.get("detected_by") or [m["property"]], "what": m.get("what", ""), "expected_missed": bool(m.get("expected_missed_at_quick_tier"))}
     only = a.props.split(",") if a.props else None
     missed = []
     t0 = time.time()
@@ -126,7 +126,9 @@ def mutants(a):
                     break
             ok = any(h for _, h in caught)
             print(f"MUTANT {name}: {'caught' if ok else 'MISSED'} {caught} — {info.get('what', '')}", flush=True)
-            if not ok:
+            if not ok and info.get("expected_missed"):
+                print(f"  (recorded as a residual gap of the quick tier in DESIGN.md §10; not counted)", flush=True)
+            elif not ok:
                 missed.append(name)
         finally:
             shutil.rmtree(scratch, ignore_errors=True)
